@@ -124,9 +124,15 @@ def hash_ok(tree):
 
     Recomputation: deep copy of the tree (Expression.copy()), every _hash of the copy cleared, hash(copy) (which
     fills every node of the copy); original and copy are walked in lock-step."""
+    return hash_check(tree)[0]
+
+
+def hash_check(tree, want_fresh=False):
+    """(problems as in hash_ok, hash of the root recomputed from scratch or None).  want_fresh=True forces the
+    recomputation even when no node caches a hash."""
     orig = nodes(tree)
-    if all(n._hash is None for n, *_ in orig):
-        return []
+    if not want_fresh and all(n._hash is None for n, *_ in orig):
+        return [], None
     cp = tree.copy()
     cpn = nodes(cp)
     if len(cpn) < len(orig):
@@ -137,7 +143,7 @@ def hash_ok(tree):
     try:
         hash(cp)
     except TypeError as e:  # unhashable arg value: nothing can be cached either
-        return [("unhashable", f"{type(e).__name__}: {e}", _cls(tree))]
+        return [("unhashable", f"{type(e).__name__}: {e}", _cls(tree))], None
     # lock-step walk by args (robust to shared nodes)
     problems = []
     stack = [(tree, cp)]
@@ -163,7 +169,7 @@ def hash_ok(tree):
             raise AssertionError("treecheck.hash_ok: copy diverges from the original (children)")
         for (_, _, x), (_, _, y) in zip(ca, cb):
             stack.append((x, y))
-    return problems
+    return problems, cp._hash
 
 
 def clear_hashes(tree):
